@@ -1081,6 +1081,15 @@ func streamIndex(o opts) {
 			key := "GET:" + pick(r, paths)
 			switch r.Intn(8) {
 			case 0, 1:
+				if len(pending) == 0 && r.Intn(3) == 0 {
+					// the real store (both halves in one call): the model takes its two steps back to back
+					resp := &httpcache.Response{StatusCode: 200 + i}
+					if err := mw.VerifStore(key, resp, time.Hour); err == nil {
+						emit(ints(1, keyNum[key], int64(200+i)), &toks{})
+						emit(ints(2, keyNum[key], int64(200+i)), &toks{})
+					}
+					break
+				}
 				if _, busy := pending[key]; !busy {
 					resp := &httpcache.Response{StatusCode: 200 + i}
 					if mw.VerifStoreIndex(key, resp) { // false: another in-flight store holds this key's stripe
